@@ -20,6 +20,8 @@ import (
 	"os"
 	"sort"
 	"strings"
+	"sync"
+	"sync/atomic"
 	"testing"
 	"time"
 
@@ -174,7 +176,7 @@ func TestVerif_C19Agent(t *testing.T) {
 	r.Rule("real Agent per case (exit enabled or promoted on demand; 0-3 static networks incl. default routes and very short prefixes of either family, IPv6-only and IPv4-only exits probed with destinations of the other family, 0-2 domain patterns, sometimes nothing configured) x PRNG ManageRoute histories " +
 		"(add, add-again with another metric/spelling, remove, remove-absent, remove-static, list) x crafted STREAM_OPEN frames (IPv4, IPv6/IPv4-mapped, domain-typed names and IP literals) through Agent.handleStreamOpen; " +
 		"non-trivial = history with >=1 connected probe, >=1 refused probe and >=1 dynamic route change; distinct by (config, steps)")
-	r.Assume("route management calls are sequential (the property quantifies over histories); 'currently present dynamic routes' = the answer of ManageRoute(\"list\") taken immediately before the probe")
+	r.Assume("hist: route management calls are sequential; conc: only ManageRoute(\"add\") calls overlap, removes and probes follow after all adds returned; 'currently present dynamic routes' = the answer of ManageRoute(\"list\") taken immediately before the probe")
 
 	table := map[string]netip.Addr{}
 	for k, v := range c19aNames {
@@ -196,6 +198,8 @@ func TestVerif_C19Agent(t *testing.T) {
 
 	n := r.N(90, 600)
 	r.Cases("hist", n, func(ci int, rng *verifkit.Rand) { c19aHistory(r, ci, rng, sink, dns, root) })
+
+	c19aConcurrent(r, sink, dns, root)
 
 	r.Require("probes", 800)
 	r.Require("connected_permitted", 150)
@@ -711,3 +715,182 @@ func c19aHistory(r *verifkit.R, ci int, rng *verifkit.Rand, sink *kitSink, dns *
 }
 
 var _ = net.IPv4len
+
+// ---------------------------------------------------------------------------- concurrent adds
+
+// c19aConcurrent: several API clients add the SAME network at the same moment (only adds overlap),
+// with 0..64 other routes already present; after all adds returned the network is removed once.
+// ManageRoute("list") then no longer shows it, so nothing inside it may be connected any more.
+// The handler's AllowedRouteCount() is compared with (configured + listed) as a cheap indicator
+// that decides where to probe more; the verdict is the accept on the loopback listener.
+func c19aConcurrent(r *verifkit.R, sink *kitSink, dns *kitDNS, root string) {
+	nAgents := r.N(8, 80)
+	r.Cases("conc", nAgents, func(ci int, rng *verifkit.Rand) {
+		dir, err := os.MkdirTemp(root, "c")
+		if err != nil {
+			r.Inconclusive("tempdir: " + err.Error())
+			return
+		}
+		cfg := config.Default()
+		cfg.Agent.DataDir = dir
+		cfg.Agent.LogLevel = "error"
+		cfg.Connections.IdleThreshold = 30 * time.Second
+		cfg.Exit.Enabled = true
+		cfg.Exit.DNS.Servers = []string{dns.Addr}
+		cfg.Exit.DNS.Timeout = 5 * time.Second
+		fillers := []int{0, 4, 16, 32, 64, 64}[rng.Intn(6)]
+		for i := 0; i < fillers; i++ { // never probed: documentation / private space, not loopback
+			cfg.Exit.Routes = append(cfg.Exit.Routes, fmt.Sprintf("10.%d.%d.0/24", rng.Intn(256), i))
+		}
+		a, err := New(cfg)
+		if err != nil {
+			r.Inconclusive("agent.New: " + err.Error())
+			return
+		}
+		if err := a.Start(); err != nil {
+			r.Inconclusive("agent.Start: " + err.Error())
+			return
+		}
+		defer func() {
+			ctx, cancel := context.WithTimeout(context.Background(), kitWatchdog)
+			defer cancel()
+			if err := a.StopWithContext(ctx); err != nil {
+				r.Inconclusive("agent did not stop within the watchdog")
+			}
+		}()
+		if a.exitHandler == nil {
+			r.Inconclusive("no exit handler on an exit-enabled agent")
+			return
+		}
+		rec := newKitWriter()
+		a.exitHandler.SetWriter(rec)
+		if _, ok := sink.barrier(); !ok {
+			r.Inconclusive("sink barrier failed (watchdog)")
+			return
+		}
+		_, eph, err := crypto.GenerateEphemeralKeypair()
+		if err != nil {
+			r.Inconclusive("keygen: " + err.Error())
+			return
+		}
+		var peer identity.AgentID
+		rng.Fill(peer[:])
+		nStatic := a.exitHandler.AllowedRouteCount()
+		streamID := uint64(900000)
+		rounds := 150
+		type round struct {
+			Net        string `json:"net"`
+			Adders     int    `json:"concurrent_adds"`
+			AddsOK     int    `json:"adds_ok"`
+			Removed    bool   `json:"removed"`
+			Listed     int    `json:"listed_after_remove"`
+			AllowCount int    `json:"allow_list_size"`
+			Probed     string `json:"probe,omitempty"`
+			Connected  string `json:"connected,omitempty"`
+		}
+		var hist []round
+		bad, judged := false, 0
+		for k := 0; k < rounds; k++ {
+			p := netip.PrefixFrom(netip.AddrFrom4([4]byte{127, byte(1 + rng.Intn(250)), byte(rng.Intn(256)), 0}), 24)
+			g := 2 + rng.Intn(7)
+			spell := make([]string, g)
+			for i := range spell {
+				spell[i] = c19aSpell(p, rng)
+			}
+			start := make(chan struct{})
+			var wg sync.WaitGroup
+			var okAdds atomic.Int64
+			for i := 0; i < g; i++ {
+				wg.Add(1)
+				go func(i int) {
+					defer wg.Done()
+					<-start
+					if _, err := a.ManageRoute("add", spell[i], uint16(i)); err == nil {
+						okAdds.Add(1)
+					}
+				}(i)
+			}
+			close(start)
+			wg.Wait()
+			r.Add("conc_add_calls", g)
+			rd := round{Net: p.String(), Adders: g, AddsOK: int(okAdds.Load())}
+			_, rerr := a.ManageRoute("remove", p.String(), 0)
+			rd.Removed = rerr == nil
+			res, lerr := a.ManageRoute("list", "", 0)
+			if lerr != nil || res == nil {
+				r.Inconclusive("ManageRoute(list) failed")
+				return
+			}
+			stillListed := false
+			for _, e := range res.Routes {
+				if q, ok := kitParseNet(e.Network); ok && q == p {
+					stillListed = true
+				}
+			}
+			rd.Listed = len(res.Routes)
+			rd.AllowCount = a.exitHandler.AllowedRouteCount()
+			r.Add("conc_rounds", 1)
+			if stillListed {
+				hist = append(hist, rd)
+				continue // still a present route by the agent's own answer: nothing to judge
+			}
+			differs := rd.AllowCount != nStatic+len(res.Routes)
+			if differs {
+				r.Add("conc_allow_list_size_differs_from_route_set", 1)
+			}
+			if differs || rng.Chance(1, 4) {
+				b := p.Addr().As4()
+				b[3] = byte(1 + rng.Intn(254))
+				dest := netip.AddrFrom4(b)
+				streamID++
+				id := streamID
+				open := &protocol.StreamOpen{RequestID: id + 5, AddressType: protocol.AddrTypeIPv4, Address: b[:], Port: uint16(sink.Port), EphemeralPubKey: eph}
+				a.handleStreamOpen(peer, &protocol.Frame{Type: protocol.FrameStreamOpen, StreamID: id, Payload: open.Encode()})
+				rp, ok := rec.waitReply(id)
+				if !ok {
+					r.Inconclusive("no reply to an open request within the watchdog")
+					return
+				}
+				accs, ok := sink.barrier()
+				if !ok {
+					r.Inconclusive("sink barrier failed (watchdog)")
+					return
+				}
+				a.exitHandler.HandleStreamClose(peer, id)
+				rec.forget(id)
+				judged++
+				r.Add("probes", 1)
+				r.Add("conc_probes_into_removed_route", 1)
+				rd.Probed = dest.String()
+				if rp.Ack {
+					rd.Probed += " ack"
+				}
+				for _, ac := range accs {
+					rd.Connected = ac.Dest.String()
+				}
+				hist = append(hist, rd)
+				if len(accs) > 0 {
+					bad = true
+					tail := hist
+					if len(tail) > 6 {
+						tail = tail[len(tail)-6:]
+					}
+					r.Violation("connected-not-permitted:removed-dynamic-route-after-concurrent-adds", "conc", ci,
+						fmt.Sprintf("%d ManageRoute(add) calls for %s overlapped, then one remove succeeded (%v); ManageRoute(list) no longer shows the network (%d routes listed, %d configured) but the exit connected to %s:%d (allow list holds %d entries)",
+							g, p, rd.Removed, len(res.Routes), nStatic, accs[0].Dest, sink.Port, rd.AllowCount),
+						map[string]any{"filler_routes": fillers, "last_rounds": tail})
+				} else {
+					r.Add("refused_not_permitted", 1)
+				}
+				continue
+			}
+			hist = append(hist, rd)
+		}
+		r.Eval(fmt.Sprintf("conc|%d|%d|%v", fillers, judged, bad), judged > 0 && !bad)
+		if ci == 0 && len(hist) > 3 {
+			r.Sample(map[string]any{"phase": "conc", "filler_routes": fillers, "first_rounds": hist[:3]})
+		}
+	})
+	r.Require("conc_rounds", 500)
+	r.Require("conc_probes_into_removed_route", 100)
+}
